@@ -589,6 +589,11 @@ def np_array(interp, st, args, kwargs, node):
     if isinstance(v, FiltList):
         # np.array(list of selected rows): the same filtered view, as an array
         return FiltList(v.src, v.keep, as_array=True)
+    if isinstance(v, Grid) and dtype is not None and v.kind == "int":
+        kind_, dname_ = _dtype_kind(dtype)
+        if kind_ == "int" and dname_ in ("int64", "int"):
+            # widening cast: same values, the dtype is now known (matters for tobytes)
+            return Grid(v.dims, v.arr, v.kind, v.count, "int64")
     if isinstance(v, (Arr, Grid)):
         return v
     if isinstance(v, GList):
@@ -2081,3 +2086,75 @@ def np_vstack(interp, st, args, kwargs, node):
 LIBFUNCS.update({"np.meshgrid": np_meshgrid, "np.vstack": np_vstack})
 METHODS[("Grid", "ravel")] = m_ravel
 METHODS[("Arr", "ravel")] = m_ravel
+
+
+# ----------------------------------------------------------------------------- bytes and hashes (C09: equal mazes have equal hashes)
+_DTYPE_CODE = {"bool": 1, "int8": 2, "int16": 3, "int32": 4, "int64": 5, "uint8": 6, "float32": 7, "float64": 8, "float": 8}
+
+
+def _dtype_tag(g):
+    """an integer naming the dtype of an array: a constant when it is known, otherwise an unknown function of the array"""
+    if g.kind == "bool":
+        return z3.IntVal(1)
+    if g.dtype in _DTYPE_CODE:
+        return z3.IntVal(_DTYPE_CODE[g.dtype])
+    return z3.Function(f"dtype_of_r{g.rank}_{g.kind}", g.arr.sort(), z3.IntSort())(g.arr)
+
+
+def m_tobytes(interp, st, base, base_node, args, kwargs, node):
+    """a.tobytes(): an opaque bytes object.  Library contract (trusted): the bytes are a function of the dtype, the shape and the entries
+    inside the shape - two arrays with the same dtype, the same shape and the same entries give equal bytes (that instance is assumed for
+    every pair of tobytes() calls of one path); nothing else is known about them."""
+    I = _I()
+    M = _M()
+    if args or kwargs:
+        raise Outside("tobytes with arguments", node)
+    g = M.arr_to_grid(base) if isinstance(base, Arr) else base
+    if not isinstance(g, Grid):
+        raise Outside("tobytes of a non-array", node)
+    _trust("ndarray.tobytes(): arrays of one dtype and shape with equal entries have equal bytes (the bytes themselves are not interpreted)")
+    f = z3.Function(f"np.tobytes_r{g.rank}_{g.kind}", *([g.arr.sort()] + [z3.IntSort()] * (g.rank + 1) + [I.OBJ_SORT]))
+    tag = _dtype_tag(g)
+    term = f(g.arr, *[to_z3(as_int(d)) for d in g.dims], tag)
+    seen = interp.ctx.__dict__.setdefault("tobytes_seen", [])
+    for (g2, tag2, term2) in seen:
+        if g2.rank != g.rank or g2.kind != g.kind or term2.eq(term):
+            continue
+        idx = [z3.Int(V.fresh_name("bi")) for _ in range(g.rank)]
+        inr = z3.And(*[z3.And(i >= 0, i < to_z3(as_int(d))) for i, d in zip(idx, g.dims)])
+        same = z3.And(*([to_z3(as_int(a)) == to_z3(as_int(b)) for a, b in zip(g.dims, g2.dims)] + [tag == tag2, z3.ForAll(idx, z3.Implies(inr, g.select(idx) == g2.select(idx)))]))
+        st.assume(z3.Implies(same, term == term2))
+    seen.append((g, tag, term))
+    return term
+
+
+def bi_hash(interp, st, args, kwargs, node):
+    """hash(x) of an opaque object (bytes, ...) or of a tuple of such: an unknown but fixed function of the value (equal values, equal hashes)"""
+    I = _I()
+    if kwargs or len(args) != 1:
+        raise Outside("hash with other arguments", node)
+
+    def obj_of(x):
+        if isinstance(x, I.ObjMethod):
+            x = x.value
+        if I.is_obj(x):
+            return x
+        if is_sym(x) and x.sort() == z3.IntSort() or isinstance(x, int) and not isinstance(x, bool):
+            return z3.Function("obj.of_int", z3.IntSort(), I.OBJ_SORT)(to_z3(x))
+        if isinstance(x, str):
+            return z3.Const("obj:" + repr(x), I.OBJ_SORT)
+        if isinstance(x, tuple):
+            parts = [obj_of(e) for e in x]
+            return z3.Function(f"obj.tuple{len(parts)}", *([I.OBJ_SORT] * len(parts) + [I.OBJ_SORT]))(*parts)
+        raise Outside(f"hash of {type(x).__name__}", node)
+
+    x = args[0]
+    if isinstance(x, Rec):
+        raise Outside("hash of a record (call its __hash__ explicitly)", node)
+    _trust("hash(): equal objects have equal hashes (the value is not interpreted)")
+    return z3.Function("py.hash", I.OBJ_SORT, z3.IntSort())(obj_of(x))
+
+
+BUILTINS["hash"] = bi_hash
+METHODS[("Grid", "tobytes")] = m_tobytes
+METHODS[("Arr", "tobytes")] = m_tobytes
